@@ -252,9 +252,9 @@ func ParseData(data []byte) (Config, error) {
 
 					var actionNegative Action
 
-					if analog.Action != nil {
+					if analog.ActionNegative != nil {
 						actionNegative = Action(*analog.ActionNegative)
-						if !SupportedActions[action] {
+						if !SupportedActions[actionNegative] {
 							return Config{}, fmt.Errorf("[%s] %s: action not supported: %s", name, evcodeRaw, *analog.ActionNegative)
 						}
 						bidirectional = true
